@@ -353,9 +353,13 @@ fn sched_strategy() -> BoxedStrategy<(u8, u16, u64, u64)> {
 }
 
 pub fn make_schedule(len: usize, k: (u8, u16, u64, u64)) -> Schedule {
-    let s = match k.0 {
-        0 => Schedule::uniform(len, 1),
-        1 => Schedule::uniform(len, 1 + (k.1 as usize % 9)),
+    // inputs of several MiB (rare products of the mutation operators in the thorough tier) are not
+    // delivered one octet at a time: a schedule has at most about 300 000 chunks, which keeps one case
+    // within seconds; one-octet delivery is explored on everything shorter than that
+    let floor = len / 300_000 + 1;
+    let s = match if len > 300_000 && k.0 == 2 { 1 } else { k.0 } {
+        0 => Schedule::uniform(len, floor),
+        1 => Schedule::uniform(len, floor + (k.1 as usize % 9)),
         2 => {
             // random composition: boundaries from the mask bits, repeated over the length
             let mut chunks = Vec::new();
@@ -484,6 +488,7 @@ pub fn run_c05(ctx: &Ctx) {
                     let quiet = Probe { ctx, counting: false };
                     let mut mask = th;
                     let mut done = 0u64;
+                    let mut reported = 0u64;
                     while mask < total {
                         for stall in [0u64, mask.wrapping_mul(0x9e37_79b9_7f4a_7c15) | 3] {
                             let mut s = Schedule::composition(n, mask);
@@ -501,8 +506,13 @@ pub fn run_c05(ctx: &Ctx) {
                             }
                         }
                         mask += threads;
+                        // (counted as it goes: the progress watchdog must see that this loop is alive)
+                        if done - reported >= 8192 {
+                            ctx.evals_add(done - reported);
+                            reported = done;
+                        }
                     }
-                    ctx.evals_add(done);
+                    ctx.evals_add(done - reported);
                     ctx.label_n("exhaustive composition runs", done);
                 });
             }
